@@ -41,12 +41,15 @@ def run(tier, seed, replay=None):
         for byte in range(256):
             for _ in range(per_byte):
                 lines.append(G.step_case(r, byte))
+        nmulti = 3000 if tier == "quick" else 150000
+        for _ in range(nmulti):
+            lines.append(G.steps_case(r))
         for i in range(nruns):
             lines.append(G.run_case(r, tracing=0, max_cycles=0, trunc="1" if i % 8 else "0",
                                     allow_undefined=(i % 10 == 0)))
     real = C.drive_parallel(h, lines, workdir=True)
     model = C.drive_parallel(drv, lines)
-    oracle_in = [("isa" + l) if l.startswith("step ") else l for l in lines]
+    oracle_in = [("isa" + l) if l.startswith("step") else l for l in lines]
     oracle = C.drive_parallel(drv, oracle_in)
 
     classes = Counter()
@@ -55,8 +58,8 @@ def run(tier, seed, replay=None):
     genuine = []
     for l, a, b, o in zip(lines, real, model, oracle):
         kind = l.split(" ", 1)[0]
-        is_step = kind == "step"
-        trunc = l.split(" ")[5] if is_step else l.split(" ")[3]
+        is_step = kind in ("step", "steps")
+        trunc = (l.split(" ")[5] if kind == "step" else l.split(" ")[6]) if is_step else l.split(" ")[3]
         if is_step:
             byte_ok = True
             cls = (a.split(" ")[0:2])
@@ -85,7 +88,8 @@ def run(tier, seed, replay=None):
                          "modelled not verified: hexsim.hpp/hexsimio.hpp C++ text, libstdc++ streams"],
         "evaluations": len(lines), "distinct_nontrivial": len(nontrivial),
         "rule": "256 instruction bytes x planted corner/random states (one real Processor::run() iteration each, "
-                "via friend hook) + structured whole programs with all three system calls; non-trivial = the "
+                "via friend hook) + planted multi-step cases (stores and READ results landing in the word being executed, "
+                "prefix chains across words) + structured whole programs with all three system calls; non-trivial = the "
                 "real step/run completed without throw/fault; distinct by input line",
         "samples": lines[:2] + lines[-1:],
         "traces_validated_against_impl": len(lines) - len(mismatches),
